@@ -8,14 +8,29 @@ import (
 
 // Entry is one key of a map iteration under the map-order seam; the lookup is live.
 type Entry[K comparable, V any] struct {
-	Key K
-	m   map[K]V
+	Key  K
+	m    map[K]V
+	site string
 }
 
 // Get returns the current value of the key (ok = false when the entry was deleted during the iteration).
 func (e Entry[K, V]) Get() (V, bool) {
+	if s := active; s != nil && s.env["mapacc"] == 1 {
+		id := MapID(e.m)
+		s.keepAlive(id, e.m)
+		Acc(id, false, e.site)
+	}
 	v, ok := e.m[e.Key]
 	return v, ok
+}
+
+// MapAcc is the race probe of a map write (inserted by the typed rewriter before `m[k] = v` and delete(m, k)).
+func MapAcc[M ~map[K]V, K comparable, V any](m M, site string, write bool) {
+	if s := active; s != nil && s.env["mapacc"] == 1 {
+		id := MapID(map[K]V(m))
+		s.keepAlive(id, m)
+		Acc(id, write, site)
+	}
 }
 
 // stableKey renders a map key structurally (never by address) so that runs are reproducible.
@@ -84,7 +99,7 @@ var StableKeyHook func(k any) (string, bool)
 func Iter[M ~map[K]V, K comparable, V any](m M, site string) []Entry[K, V] {
 	out := make([]Entry[K, V], 0, len(m))
 	for k := range m {
-		out = append(out, Entry[K, V]{Key: k, m: m})
+		out = append(out, Entry[K, V]{Key: k, m: m, site: site})
 	}
 	s := active
 	if s == nil || len(out) < 2 {
@@ -142,4 +157,14 @@ func (s *Sched) noteSite(site string, n, ties int) {
 		s.exec.MapSites[site] = n
 	}
 	s.exec.MapTies += ties
+}
+
+// keepAlive pins a probed object for the rest of the execution: an address identifies one object only while it lives.
+func (s *Sched) keepAlive(id string, obj any) {
+	if s.pinned == nil {
+		s.pinned = map[string]any{}
+	}
+	if _, ok := s.pinned[id]; !ok {
+		s.pinned[id] = obj
+	}
 }
